@@ -286,13 +286,23 @@ fn render(m: &Model, rng: &mut Rng) -> String {
     let g = if m.generics.is_empty() { String::new() } else { format!("<{}>", m.generics.join(", ")) };
     s.push_str(&format!("#[typeshare]\npub struct Holder{g} {{\n"));
     for (i, t) in m.fields.iter().enumerate() {
-        s.push_str(&format!("    pub f{i}: {},\n", t.render(rng, true)));
+        // a sixth of the fields / payloads state their shared type through `serialized_as` on a field of an opaque Rust type:
+        // the same translation is expected
+        if rng.chance(1, 6) {
+            s.push_str(&format!("    #[typeshare(serialized_as = \"{}\")]\n    pub f{i}: OpaqueForeign,\n", t.render(rng, true)));
+        } else {
+            s.push_str(&format!("    pub f{i}: {},\n", t.render(rng, true)));
+        }
     }
     s.push_str("}\n\n");
     if !m.payloads.is_empty() {
         s.push_str("#[typeshare]\n#[serde(tag = \"t\", content = \"c\")]\npub enum Choice {\n");
         for (i, t) in m.payloads.iter().enumerate() {
-            s.push_str(&format!("    Pay{i}({}),\n", t.render(rng, true)));
+            if rng.chance(1, 6) {
+                s.push_str(&format!("    Pay{i}(#[typeshare(serialized_as = \"{}\")] OpaqueForeign),\n", t.render(rng, true)));
+            } else {
+                s.push_str(&format!("    Pay{i}({}),\n", t.render(rng, true)));
+            }
         }
         s.push_str("}\n\n");
     }
@@ -666,7 +676,7 @@ pub fn run(ctx: &Ctx) -> (Spec, Report) {
     );
     let spec = Spec {
         level: "exploration",
-        rule: format!("all {} type expressions of depth <= 2 over {{14 primitives, (), user type, generic parameter, generic instance}} closed under Vec, [T;3], &[T], Option, &T, 8 smart pointers, generic user type and HashMap with 7 key types (exhaustive, {} programs), plus random trees of depth <= 5; positions field / newtype payload / alias target / const type / generic alias, generic newtype struct and generic tagged-enum payload whose target mentions the item's own parameters (TS, Kotlin, Swift, Scala); random prefix and type_mappings tables (user types and generic bases for all backends, container instances for TS/Go/Python), path qualification varied; each use site is parsed back into a tree and compared with an independent reference translation under per-language JSON-category and integer-range tables; distinct = (language, position, depth, outer constructor)", exh.len(), n_exh),
+        rule: format!("all {} type expressions of depth <= 2 over {{14 primitives, (), user type, generic parameter, generic instance}} closed under Vec, [T;3], &[T], Option, &T, 8 smart pointers, generic user type and HashMap with 7 key types (exhaustive, {} programs), plus random trees of depth <= 5; positions field / newtype payload / alias target / const type (a sixth of the fields and payloads given through `serialized_as` on an opaque Rust type) / generic alias, generic newtype struct and generic tagged-enum payload whose target mentions the item's own parameters (TS, Kotlin, Swift, Scala); random prefix and type_mappings tables (user types and generic bases for all backends, container instances for TS/Go/Python), path qualification varied; each use site is parsed back into a tree and compared with an independent reference translation under per-language JSON-category and integer-range tables; distinct = (language, position, depth, outer constructor)", exh.len(), n_exh),
         assumptions: vec![
             "TypeScript has no nullable form at type level: an Option nested inside a container may translate to the bare element type".into(),
             "Go `int` and `uint` are taken at their guaranteed 32 bits; Python int is unbounded".into(),
